@@ -150,6 +150,45 @@ Theorem C10_attr_route_roundtrip :
 Proof. exact @attr_route_roundtrip. Qed.
 Print Assumptions C10_attr_route_roundtrip.
 
+(* reading the attributes: with a reader for every declared attribute (guard readers_ok) the route serializes the
+   value VObjT of the attributes read, to which every theorem above applies ... *)
+Theorem C10_attr_route_serializes :
+  forall (payload : Type) (to_s : str -> payload -> str) (o : opts) (c : caps) id ty req
+         (rs : list (reading payload)) disp,
+    readers_ok rs = true ->
+    exists l, read_all rs = Ok l /\
+              attr_route_serialize to_s o c id ty req rs disp = Ok (serialize to_s o c (VObjT id ty req l disp)).
+Proof. exact @attr_route_serialize_ok. Qed.
+Print Assumptions C10_attr_route_serializes.
+
+(* ... and without the guard the statement "the serializer does not fail" is false of the (faithful) model: open
+   finding struct-type-attribute-route.  Pcore::StructElement declares key_type and value_type, StructElement has
+   no reader: serializing a Struct type that has to travel by attributes ends in NO_ATTRIBUTE_READER. *)
+Definition C10_attr_route_statement : Prop :=
+  forall (payload : Type) (to_s : str -> payload -> str) (o : opts) (c : caps) id ty req
+         (rs : list (reading payload)) disp,
+    is_ok (attr_route_serialize to_s o c id ty req rs disp) = true.
+
+Definition ex_struct_element : list (reading str) :=
+  [(s_key_type, None, false); (s_value_type, None, false)].
+
+Theorem C10_struct_attribute_route_refuted :
+  exists rs : list (reading str),
+    readers_ok rs = false /\
+    attr_route_serialize (fun _ p => p) (mkopts true true 2) (mkcaps true true 0) 1%N
+      (VStr t_struct_element) 2%nat rs [] = Err.
+Proof. exists ex_struct_element. split; vm_compute; reflexivity. Qed.
+Print Assumptions C10_struct_attribute_route_refuted.
+
+Theorem C10_attr_route_statement_refuted : ~ C10_attr_route_statement.
+Proof.
+  intros H. destruct C10_struct_attribute_route_refuted as (rs & _ & He).
+  specialize (H str (fun _ p => p) (mkopts true true 2) (mkcaps true true 0) 1%N
+                (VStr t_struct_element) 2%nat rs []).
+  rewrite He in H. discriminate.
+Qed.
+Print Assumptions C10_attr_route_statement_refuted.
+
 (* The full statement of the property, without the guard, is false of the (faithful) model: open finding
    user-hash-ptype-key.  {'__ptype' => 'x'} is read back as an object of type x. *)
 Definition C10_statement : Prop :=
